@@ -55,7 +55,15 @@ def check(ctx: Ctx) -> str:
               f"htmlsafe_json_dumps must be Markup(dumps(obj, ...).replace(...)) with exactly {want}; found replacements {dict(chain)} on `{base[:40]}`", hj.loc(), detail={"replacements": dict(chain)})
     tj = repo.func("filters:do_tojson")
     s = ast.unparse(tj.node)
-    ctx.check("return htmlsafe_json_dumps(value, dumps=dumps, **kwargs)" in s and "policies['json.dumps_function']" in s and "policies['json.dumps_kwargs']" in s, "tojson:filter", "filters:do_tojson", "delegation", "the tojson filter must serialise through htmlsafe_json_dumps with the policy's dumps function and kwargs", tj.loc())
+    deleg = [r_.value for r_ in astq.returns(tj.node) if isinstance(r_.value, ast.Call) and astq.callee(r_.value) == "htmlsafe_json_dumps"]
+    deleg_ok = False
+    if len(deleg) == 1 and [ast.unparse(a_) for a_ in deleg[0].args] == ["value"]:
+        kwd = {k_.arg: k_.value for k_ in deleg[0].keywords}
+        dv = kwd.get("dumps")
+        if isinstance(dv, ast.Name):
+            d_src = [a_ for a_ in ast.walk(tj.node) if isinstance(a_, ast.Assign) and len(a_.targets) == 1 and isinstance(a_.targets[0], ast.Name) and a_.targets[0].id == dv.id]
+            deleg_ok = len(d_src) == 1 and ast.unparse(d_src[0].value) == "policies['json.dumps_function']" and None in kwd and ast.unparse(kwd[None]) == "kwargs"
+    ctx.check(deleg_ok and "policies['json.dumps_kwargs']" in s, "tojson:filter", "filters:do_tojson", "delegation", "the tojson filter must serialise through htmlsafe_json_dumps with the policy's dumps function and kwargs", tj.loc())
 
     ctx.rule("R3", "xmlattr: every emitted key passed the key check, key and value are escaped, the key pattern contains ASCII whitespace, '/', '>' and '='; None / undefined values are skipped")
     xa = repo.func("filters:do_xmlattr")
